@@ -1050,3 +1050,88 @@ def op_c15(case):
             out.append({"d": _h(("exc", e["cls"], e["msg"], e.get("lineno"), e.get("offset"), e.get("end_lineno"), e.get("end_offset"), e.get("text"))),
                         "kind": "exc", "cls": e["cls"], "msg": e["msg"], "syntaxerror": "SyntaxError" in e["mro"]})
     return {"points": out}
+
+
+# ---------------------------------------------------------------------------------------------
+# C17: generated parser for a small grammar, run on token strings
+# ---------------------------------------------------------------------------------------------
+def _project_value(v):
+    if v is None:
+        return "none"
+    if hasattr(v, "string") and hasattr(v, "start"):
+        return v.string
+    if isinstance(v, (list, tuple)):
+        return [_project_value(x) for x in v]
+    if isinstance(v, (str, int, bool)):
+        return v if isinstance(v, str) else repr(v)
+    return "?" + type(v).__name__
+
+
+def _build_parser(gram_text: str, config: str):
+    import importlib
+    import tempfile
+
+    d = tempfile.mkdtemp(prefix="c17-", dir=_tmpdir())
+    gp = os.path.join(d, "g.gram")
+    with open(gp, "w") as fh:
+        fh.write(gram_text)
+    from pegen.build import build_parser
+
+    grammar, _p, _t = build_parser(gp)
+    out = io.StringIO()
+    if config == "xonsh":
+        sys.path.insert(0, REPO) if REPO not in sys.path else None
+        gen_mod = importlib.import_module("tasks.generator")
+        gen = gen_mod.XonshParserGenerator(grammar, out)
+    else:
+        from pegen.python_generator import PythonParserGenerator
+
+        gen = PythonParserGenerator(grammar, out)
+    gen.generate(gp)
+    code = out.getvalue()
+    ns: dict = {"__name__": "c17_generated"}
+    exec(compile(code, gp + ".py", "exec"), ns)
+    return ns["TestParser"], code
+
+
+def op_c17(case):
+    config = case["config"]
+    try:
+        arm()
+        cls, code = _build_parser(case["gram"], config)
+    except HangTimeout:
+        return {"build": "hang"}
+    except BaseException as e:  # noqa: BLE001
+        import traceback
+
+        return {"build": "error", "exc": exc_record(e), "tb": traceback.format_exc()[-600:]}
+    res = []
+    for w in case["strings"]:
+        text = " ".join(w) + "\n"
+        arm()
+        try:
+            if config == "xonsh":
+                from peg_parser.tokenizer import Tokenizer
+
+                tk = Tokenizer(T().generate_tokens(io.StringIO(text).readline))
+                p = cls(tk)
+            else:
+                from pegen.tokenizer import Tokenizer as PT
+
+                tk = PT(pytokenize.generate_tokens(io.StringIO(text).readline))
+                p = cls(tk)
+            v = p.r1()
+            end = tk.mark()
+            if v is None:
+                res.append({"st": "fail", "end": 0, "val": []})
+            elif not v:
+                res.append({"st": "falsy", "end": end, "val": _project_value(v)})
+            else:
+                res.append({"st": "ok", "end": end, "val": _project_value(v)})
+        except HangTimeout:
+            res.append({"st": "hang", "end": 0, "val": []})
+        except SyntaxError:
+            res.append({"st": "raise", "end": 0, "val": []})
+        except BaseException as e:  # noqa: BLE001
+            res.append({"st": "error:" + type(e).__name__, "end": 0, "val": [], "msg": str(e)[:200]})
+    return {"build": "ok", "results": res}
